@@ -100,10 +100,15 @@ func VerifC14Cycle() {
 		imp[i] = t
 		body := "o" + strconv.Itoa(i) + "\n"
 		if t != "" {
+			w := t
+			if strings.Contains(t, "/../") {
+				// a path with .. in the middle has to be quoted to be an import path at all
+				w = "\"" + t + "\""
+			}
 			if i == 0 && nd.Bool("spread"+strconv.Itoa(i)) {
-				body += "...@" + t + "\n"
+				body += "...@" + w + "\n"
 			} else {
-				body += "m: @" + t + "\n"
+				body += "m: @" + w + "\n"
 			}
 		}
 		files[n+".d2"] = body
